@@ -34,7 +34,9 @@ ForeignEv(e) ==
     ELSE IF ~e.reparsed THEN "C08.idempotent"
     ELSE IF e.o2 # e.o1 THEN "C08.idempotent"
     ELSE "ok"
-Judge(e) == CASE e.k = "own" -> OwnEv(e) [] e.k = "foreign" -> ForeignEv(e) [] OTHER -> "harness.unknown-event"
+\* text carried in subpackets: what the parsed object presents (sequences of code points per subpacket) is what was given
+TextEv(e) == IF e.got = e.given THEN "ok" ELSE "C08.fields"
+Judge(e) == CASE e.k = "text" -> TextEv(e) [] e.k = "own" -> OwnEv(e) [] e.k = "foreign" -> ForeignEv(e) [] OTHER -> "harness.unknown-event"
 Init == i = 1
 Next == /\ i <= Len(Events) + 1
         /\ IF i = Len(Events) + 1 THEN PrintT(<<"DONE", Len(Events)>>)
